@@ -46,7 +46,7 @@ def _ascii_case_map(p, o):
 def run(ck, tier):
     ck.rule("R-C18-length", "effects: in make_title_case the output buffer is created as a copy of the span's characters, receives only element stores (no push/insert/remove/truncate/extend/resize/drain) and is the returned value; make_title_case_str converts chars<->String without filtering")
     ck.rule("R-C18-first", "the first word-like token is capitalised whatever it is: the word loop compares the ordinal of the word-like token (the enumerate() counter over iter_word_likes()) with 0, and the true edge of that test reaches the upper-casing store before the next iteration on every path")
-    ck.rule("R-C18-caseonly", "every store output[i] = v has v = to_ascii_uppercase/lowercase of output[i] at the same index expression, or an element of the dictionary's canonical capitalisation of that same word under the is_proper_noun guard")
+    ck.rule("R-C18-caseonly", "every store output[i] = v has v = to_ascii_uppercase/lowercase of output[i] at the same index expression, or an element of the dictionary's canonical capitalisation of that same word under the is_proper_noun guard; the entry found for a word is filed under its lower-cased, apostrophe-normalised spelling and nothing coarser (WordId::from_word_chars, WordMap::insert: rule instances of R-C06-id), so that spelling has the word's own letters")
     ck.not_decided += ["idempotence (depends on should_capitalize_token's values)", "in-bounds-ness of correct_caps[idx]"]
     ck.rule("R-C18-parser", "same length: make_title_case returns the characters between the first and the last token, so a caller of make_title_case_str / _chars must hand it a parser whose tokens cover the whole text - the plain-English parser (R-C02-tile); a Markdown or other masking parser leaves markup, code spans and outer blanks outside the tokens and the result is cut short")
     ck.rule("R-C18-idem", "premise of idempotence: what make_title_case decides for a word depends on the word's letters regardless of their case (dictionary look-ups by word id, lower-cased comparisons), on its kind and on its position - never on the case the letters currently have; with the three case-only operations (upper-case the first letter, lower-case the word, copy the canonical spelling) that makes a second pass decide the same and change nothing. A decision that reads the current case is reported as undecided, not refuted: it can still be idempotent")
@@ -162,6 +162,12 @@ def run(ck, tier):
         ck.decide(rule, "make_title_case:store:canonical-copy", ok, c.span,
                   "*c = correct_caps[idx] over output[word span].iter_mut()=%s, under is_proper_noun=%s, correct_caps = dict.get_correct_capitalization_of(the word's own text)=%s/%s" % (over_output, guard, caps_ok, from_caps))
     ck.floor(rule, "store sites into the output buffer", n_sites, 2)
+    # the canonical spelling that is copied over a proper noun is the word's own letters in another case only if the
+    # dictionary files an entry under nothing coarser than its lower-cased, apostrophe-normalised spelling
+    # (rule instances of R-C06-id: a word id that also folds accents makes `bogota` find `Bogotá`)
+    from . import c05, c06
+    from .c03 import _Only
+    c06._id(c05._Sub(_Only(ck, ("WordId::from_word_chars", "WordMap::insert")), rule, "lookup:"), p, fns_by_key(p))
 
 
     _first(ck, p, byk)
